@@ -77,6 +77,7 @@ type container interface {
 	set(key string, val *lazyNode, options *ApplyOptions) error
 	add(key string, val *lazyNode, options *ApplyOptions) error
 	remove(key string, options *ApplyOptions) error
+	current() *lazyNode
 }
 
 // ApplyOptions specifies options for calls to ApplyWithOptions.
@@ -616,10 +617,6 @@ func (d *partialDoc) add(key string, val *lazyNode, options *ApplyOptions) error
 }
 
 func (d *partialDoc) get(key string, options *ApplyOptions) (*lazyNode, error) {
-	if key == "" {
-		return d.current(), nil
-	}
-
 	if d.obj == nil {
 		return nil, ErrExpectedObject
 	}
@@ -739,10 +736,6 @@ func (d *partialArray) get(key string, options *ApplyOptions) (*lazyNode, error)
 		return nil, ErrExpectedArray
 	}
 
-	if key == "" {
-		return d.current(), nil
-	}
-
 	idx, err := strconv.Atoi(key)
 
 	if err != nil {
@@ -768,7 +761,7 @@ func (d *partialArray) get(key string, options *ApplyOptions) (*lazyNode, error)
 
 // current returns a node for the array as it is now (see partialDoc.current).
 func (d *partialArray) current() *lazyNode {
-	if d.self == nil {
+	if d == nil || d.self == nil {
 		return nil
 	}
 	return &lazyNode{raw: d.self.raw, ary: d, which: eAry}
@@ -1181,15 +1174,22 @@ func (p Patch) copy(doc *container, op Operation, accumulatedCopySize *int64, op
 		return fmt.Errorf("copy operation failed to decode from: %w", err)
 	}
 
-	con, key := findObject(doc, from, options)
+	var val *lazyNode
 
-	if con == nil {
-		return fmt.Errorf("copy operation does not apply: doc is missing from path: \"%s\": %w", from, ErrMissing)
-	}
+	if from == "" {
+		// the whole document; "/" is its member with the empty name
+		val = (*doc).current()
+	} else {
+		con, key := findObject(doc, from, options)
 
-	val, err := con.get(key, options)
-	if err != nil {
-		return fmt.Errorf("error in copy for from: '%s': %w", from, err)
+		if con == nil {
+			return fmt.Errorf("copy operation does not apply: doc is missing from path: \"%s\": %w", from, ErrMissing)
+		}
+
+		val, err = con.get(key, options)
+		if err != nil {
+			return fmt.Errorf("error in copy for from: '%s': %w", from, err)
+		}
 	}
 
 	path, err := op.Path()
@@ -1197,7 +1197,7 @@ func (p Patch) copy(doc *container, op Operation, accumulatedCopySize *int64, op
 		return fmt.Errorf("copy operation failed to decode path: %w", ErrMissing)
 	}
 
-	con, key = findObject(doc, path, options)
+	con, key := findObject(doc, path, options)
 
 	if con == nil {
 		return fmt.Errorf("copy operation does not apply: doc is missing destination path: %s: %w", path, ErrMissing)
